@@ -156,6 +156,14 @@ type c05sess struct {
 func oracleC05(p *sim.Plan, out *sim.Outcome) []sim.Violation {
 	vs := genericOracle(p, out)
 	h := out.H
+	bcloseStep := map[int]int{} // connection -> step at which the broker closed its side
+	for _, r := range h.Recs {
+		if r.Kind == "bclose" {
+			if _, ok := bcloseStep[r.Conn]; !ok {
+				bcloseStep[r.Conn] = r.Step
+			}
+		}
+	}
 	cfgExp := uint32(7200)
 	if p.Broker.SessionExpiryS != nil {
 		cfgExp = uint32(*p.Broker.SessionExpiryS)
@@ -347,7 +355,17 @@ func oracleC05(p *sim.Plan, out *sim.Outcome) []sim.Violation {
 							if x == o || x.Inv < 0 || !(x.Op.C == ci || x.Op.Target == id) {
 								continue
 							}
-							if !(x.Resp >= 0 && x.Resp < o.Inv) && !(x.Inv > o.Resp) {
+							xr := x.Resp
+							if (x.Op.K == "cut" || x.Op.K == "disconnect") && x.Conn >= 0 {
+								// the broker acts on the end of a connection when IT notices it (a half-closed
+								// connection can still be written to): the operation lasts until then
+								if b, ok := bcloseStep[x.Conn]; ok && b > xr {
+									xr = b
+								} else if !ok {
+									xr = -1
+								}
+							}
+							if !(xr >= 0 && xr < o.Inv) && !(x.Inv > o.Resp) {
 								overl = true
 							}
 						}
